@@ -776,19 +776,24 @@ func (d *Deserializer) ReadVariableByteSlice(slice *[]byte, lenType SeriLengthPr
 	switch {
 	case maxLen > 0 && sliceLength > maxLen:
 		d.err = errProducer(ierrors.Wrapf(ErrDeserializationLengthMaxExceeded, "denoted %d bytes, max allowed %d ", sliceLength, maxLen))
+
+		return d
 	case minLen > 0 && sliceLength < minLen:
 		d.err = errProducer(ierrors.Wrapf(ErrDeserializationLengthMinNotReached, "denoted %d bytes, min required %d ", sliceLength, minLen))
+
+		return d
+	}
+
+	// the denoted length is untrusted: make sure the data is there before allocating for it
+	if len(d.src[d.offset:]) < sliceLength {
+		d.err = errProducer(ErrDeserializationNotEnoughData)
+
+		return d
 	}
 
 	dest := make([]byte, sliceLength)
 	if sliceLength == 0 {
 		*slice = dest
-
-		return d
-	}
-
-	if len(d.src[d.offset:]) < sliceLength {
-		d.err = errProducer(ErrDeserializationNotEnoughData)
 
 		return d
 	}
